@@ -127,6 +127,9 @@ func Leaves(level int) []Leaf {
 	ls[len(ls)-1].Defs = mv
 	add("map-enum-untyped", "map", J{"type": "object", "additionalProperties": J{"enum": A{"a", "b"}}}, nil, true)
 	add("object-addl-typed", "object", J{"type": "object", "properties": J{"k": J{"type": "string"}}, "additionalProperties": J{"type": "integer"}}, nil, true)
+	// every validator family of an object at once, next to typed additional properties (order of the generated checks)
+	add("object-addl-typed-full", "object", J{"type": "object", "properties": J{"k": J{"type": "string", "minLength": 1}, "d": J{"type": "integer", "default": 4, "minimum": 2}, "a": J{"type": "array", "items": J{"type": "string"}, "maxItems": 2}},
+		"required": A{"k"}, "additionalProperties": J{"type": "integer"}}, nil, true)
 	add("object-addl-num", "object", J{"type": "object", "properties": J{"k": J{"type": "string"}}, "additionalProperties": J{"type": "number"}}, nil, true)
 	add("object-addl-bool", "object", J{"type": "object", "properties": J{"k": J{"type": "string"}}, "additionalProperties": J{"type": "boolean"}}, nil, true)
 	add("object-addl-false", "object", J{"type": "object", "properties": J{"k": J{"type": "string"}}, "additionalProperties": false}, nil, true)
